@@ -61,3 +61,30 @@ MUTANTS.append(dict(prop="C01", name="benign-extract-finally-helper", benign=Tru
     ("connectionpool.py", "                self._put_conn(conn)\n\n        if not conn:", "                self._give_back(conn)\n\n        if not conn:"),
     ("connectionpool.py", "    def _validate_conn(self, conn: BaseHTTPConnection) -> None:\n", "    def _give_back(self, c):  # type: ignore[no-untyped-def]\n        self._put_conn(c)\n\n    def _validate_conn(self, conn: BaseHTTPConnection) -> None:\n"),
 ]))
+M("C01", "release-conn-keeps-backref", "response.py",
+  "        self._pool._put_conn(self._connection)\n        self._connection = None\n", "        self._pool._put_conn(self._connection)\n", rule="C01-R4")
+M("C01", "chunk-read-outside-catcher", "response.py",
+  "        self._init_decoder()\n        # FIXME: Rewrite this method and make it a class with a better structured logic.\n",
+  "        self._init_decoder()\n        if self._fp is not None and self.chunked and self.chunk_left:\n            self._fp._safe_read(0)  # type: ignore[union-attr]\n", rule="C01-R5")
+M("C01", "catcher-does-not-close-conn", "response.py",
+  "                if self._connection:\n                    self._connection.close()\n\n            # If we hold the original response but it's closed now",
+  "                pass\n\n            # If we hold the original response but it's closed now", rule="C01-R6")
+M("C01", "catcher-lets-oserror-through", "response.py",
+  "            except (HTTPException, OSError) as e:\n                raise ProtocolError(f\"Connection broken: {e!r}\", e) from e\n",
+  "            except HTTPException as e:\n                raise ProtocolError(f\"Connection broken: {e!r}\", e) from e\n", rule="C01-R6")
+M("C01", "catcher-releases-unconditionally-first", "response.py",
+  "        finally:\n            # If we didn't terminate cleanly, we need to throw away our\n            # connection.\n            if not clean_exit:",
+  "        finally:\n            if self._original_response and not clean_exit:\n                self.release_conn()\n            if not clean_exit:", rule="C01-R6")
+M("C01", "urlopen-drops-httpexception", "connectionpool.py",
+  "            TimeoutError,\n            HTTPException,\n            OSError,\n            ProtocolError,", "            TimeoutError,\n            OSError,\n            ProtocolError,", rule="C01-R8")
+M("C01", "urlopen-passes-raw-error-to-retry", "connectionpool.py",
+  "            elif isinstance(new_e, (OSError, HTTPException)):\n                new_e = ProtocolError(\"Connection aborted.\", new_e)\n",
+  "            elif isinstance(new_e, HTTPException):\n                new_e = ProtocolError(\"Connection aborted.\", new_e)\n", rule="C01-R8")
+M("C01", "probe-swallows-baseexception", "connection.py",
+  "                    host=probe_http2_host, port=probe_http2_port, supports_http2=None\n                )\n            raise\n",
+  "                    host=probe_http2_host, port=probe_http2_port, supports_http2=None\n                )\n                return\n            raise\n", rule="C01-R9")
+M("C01", "drain-skips-close", "connectionpool.py",
+  "            conn = pool.get(block=False)\n            if conn:\n                conn.close()\n", "            conn = pool.get(block=False)\n            if conn and conn.sock:\n                conn.close()\n", rule="C01-R10")
+M("C01", "conn-close-keeps-sock-on-error", "connection.py",
+  "        try:\n            super().close()\n        finally:\n            # Reset all stateful properties so connection\n            # can be re-used without leaking prior configs.\n            self.sock = None\n",
+  "        try:\n            super().close()\n        finally:\n            pass\n        if True:\n            self.sock = None\n", rule="C01-R11")
